@@ -17,7 +17,8 @@ ID = "C04"
 LEVEL = "exploration"
 TECHNIQUE = "exhaustive schedule enumeration with lock-step reference"
 RULE = ("itertools.product over: list length n; per input {pre-fired ok, pre-fired failure, fired later ok, fired later "
-        "failure}; every permutation of the later firings; aggregate in {DeferredList x 8 flag sets, gatherResults x "
+        "failure, already fired but chain suspended on an unfired inner Deferred that later fires ok / fails, already "
+        "fired but pause()d with a value / failure and unpaused later}; every permutation of the later firings; aggregate in {DeferredList x 8 flag sets, gatherResults x "
         "consumeErrors, race}; cancel() of the aggregate at no point or after each prefix of the firing sequence; "
         "canceller in {none, no-op, fires a value, fires a failure} for every input that is still unfired when a cancel "
         "can reach it. Each case runs on the real objects; after construction and after every action the aggregate's "
@@ -25,21 +26,36 @@ RULE = ("itertools.product over: list length n; per input {pre-fired ok, pre-fir
         "the cancel() calls received by unfired inputs are compared with the reference. "
         "non-trivial = distinct cases with >= 2 inputs in which at least one input fired after construction "
         "(so ordering/index bookkeeping or cancellation was exercised)")
-BOUNDS = {"quick": "n = 1..4 inputs (4 canceller kinds for n <= 3; none/value/failure for n = 4), 0 or 1 aggregate cancel at every position",
-          "thorough": "n = 1..5 inputs (4 canceller kinds for n <= 4; none/value/failure for n = 5), 0 or 1 aggregate cancel at every position"}
+BOUNDS = {"quick": "all 8 input kinds for n = 1..3, the 4 plain kinds for n = 4; 4 canceller kinds for plain n <= 3, else "
+                   "none/value/failure; 0 or 1 aggregate cancel at every position",
+          "thorough": "all 8 input kinds for n = 1..3 (4 canceller kinds), n = 4 plain (4 canceller kinds) and n = 4 with exactly "
+                      "one chained/paused input, n = 5 plain (none/value/failure); 0 or 1 aggregate cancel at every position"}
 ASSUMPTIONS = [
     "inputs fire only from the top level (no input fires another input from a callback, cancellers fire only their own Deferred)",
     "when several inputs are already fired at construction time the statement does not say which of them is 'first': "
     "any pre-fired success (fireOnOneCallback / race) or pre-fired failure (fireOnOneErrback / gatherResults) is accepted",
     "after cancel() of the aggregate the result demanded is the one that follows from the inputs' cancellation outcomes; "
     "a plain CancelledError on the aggregate is accepted as well (statement only demands that inputs are cancelled)",
-    "cancel() calls on inputs that have already fired are no-ops and are not counted",
+    "cancel() on an input that has fired and whose chain is suspended on an inner Deferred is forwarded to the inner "
+    "Deferred and IS demanded (race losers, aggregate cancel); cancel() on an input that has fired and is idle, or fired "
+    "and pause()d, is a documented no-op and is not counted; a cancelled aggregate may give up with CancelledError while "
+    "a paused input is still pending",
     "canceller that raises: not in the alphabet (statement silent)",
 ]
-MIN = {"quick": {"evaluations": 700000, "nontrivial": 700000, "outcomes": 12},
+MIN = {"quick": {"evaluations": 1000000, "nontrivial": 1000000, "outcomes": 12},
        "thorough": {"evaluations": 20000000, "nontrivial": 2000000, "outcomes": 12}}
 
 KINDS = ("po", "pf", "lo", "lf")
+# co/cf: input already fired, its chain suspended on an unfired inner Deferred that later fires ok / fails
+#        (cancel() of the input is forwarded to the inner Deferred: observable, must happen)
+# uo/uf: input already fired with a value / failure but pause()d; unpause() later delivers it
+#        (cancel() of such an input is a documented no-op: nothing to demand)
+SPECIAL = ("co", "cf", "uo", "uf")
+KINDS8 = KINDS + SPECIAL
+PRE = ("po", "pf")
+OKKINDS = ("po", "lo", "co", "uo")
+PAUSED = ("uo", "uf")
+CHAINED = ("co", "cf")
 CANC4 = ("none", "noop", "ok", "fail")
 CANC3 = ("none", "ok", "fail")
 AGGS = [("DL", foc, foe, ce) for foc in (0, 1) for foe in (0, 1) for ce in (0, 1)] + \
@@ -78,8 +94,9 @@ def aggname(agg):
 class Ref:
     """Documentation-level model.  state[i] = None | ("ok", payload) | ("fail", exc-tag)."""
 
-    def __init__(self, n, agg, canc):
+    def __init__(self, n, agg, canc, cancellable=None):
         self.n, self.agg, self.canc = n, agg, canc
+        self.cancellable = cancellable or [True] * n
         self.state = [None] * n
         self.accept = None          # set of acceptable result descriptors once the aggregate is due
         self.cancels = [0] * n      # cancel() calls an input must receive while unfired
@@ -117,7 +134,7 @@ class Ref:
                 # whichever pre-fired success is taken, every unfired input is cancelled
                 self.winner = "pre"
                 for j in range(self.n):
-                    if self.state[j] is None:
+                    if self.state[j] is None and self.cancellable[j]:
                         self.cancels[j] += 1
                         self.state[j] = self.cancel_outcome(j)
                 self.accept = cands
@@ -160,7 +177,7 @@ class Ref:
                     self.winner = i
                     self.accept = {("win", i, outcome[1])}
                     for j in range(self.n):
-                        if j != i and self.state[j] is None:
+                        if j != i and self.state[j] is None and self.cancellable[j]:
                             self.cancels[j] += 1
                             self.fire(j, self.cancel_outcome(j))
             else:
@@ -181,7 +198,7 @@ class Ref:
             return False
         self.cancelled_agg = True
         for j in range(self.n):
-            if self.state[j] is None:
+            if self.state[j] is None and self.cancellable[j]:
                 self.cancels[j] += 1
                 self.fire(j, self.cancel_outcome(j))
         return True
@@ -275,17 +292,54 @@ def run_case(case):
     name = aggname(agg)
     bad = []
     canclog = []
-    inputs = [In(make_canceller(canc[i], i, canclog)) for i in range(n)]
+    inputs = []     # what the aggregate is given
+    probe = []      # where an effective cancel() of input i lands (the inner Deferred of a chained input)
     pre = {}
     for i, k in enumerate(kinds):
+        if k in CHAINED:
+            inner = In(make_canceller(canc[i], i, canclog))
+            d = In()
+            d.addCallback(lambda _, inner=inner: inner)
+            d.callback(None)
+            inputs.append(d)
+            probe.append(inner)
+            continue
+        if k in PAUSED:
+            d = In()
+            d.pause()
+            if k == "uo":
+                d.callback(("v", i))
+            else:
+                d.errback(E(("e", i)))
+            inputs.append(d)
+            probe.append(d)
+            continue
+        d = In(make_canceller(canc[i], i, canclog))
+        inputs.append(d)
+        probe.append(d)
         if k == "po":
-            inputs[i].callback(("v", i))
+            d.callback(("v", i))
             pre[i] = ("ok", ("v", i))
         elif k == "pf":
-            inputs[i].errback(E(("e", i)))
+            d.errback(E(("e", i)))
             pre[i] = ("fail", ("e", i))
-    ref = Ref(n, agg, canc)
+    cancellable = [k not in PAUSED for k in kinds]
+    ref = Ref(n, agg, canc, cancellable)
     ref.construct(pre)
+
+    def pending(i):
+        if kinds[i] in PAUSED:
+            return inputs[i].paused > 0
+        return not probe[i].called
+
+    def deliver(i):
+        k = kinds[i]
+        if k in PAUSED:
+            inputs[i].unpause()
+        elif k in OKKINDS:
+            probe[i].callback(("v", i))
+        else:
+            probe[i].errback(E(("e", i)))
 
     if agg[0] == "DL":
         a = DeferredList(inputs, fireOnOneCallback=bool(agg[1]), fireOnOneErrback=bool(agg[2]),
@@ -310,6 +364,8 @@ def run_case(case):
         due = ref.accept is not None
         if len(got) > 1:
             bad.append((name + ":fired-twice", "aggregate callbacks ran %d times at %s" % (len(got), step)))
+        elif got and not due and ref.cancelled_agg and classify(agg, got[0]) == ("cancelled",):
+            pass    # cancelled aggregate gave up with CancelledError while an uncancellable (paused) input is pending
         elif got and not due:
             bad.append((name + ":fired-before-due", "fired with %r at %s, reference: not yet" % (classify(agg, got[0]), step)))
         elif due and not got:
@@ -332,40 +388,38 @@ def run_case(case):
             break
         i = perm[step]
         step += 1
-        ok = kinds[i] == "lo"
-        d = inputs[i]
-        if d.called != (ref.state[i] is not None):
+        ok = kinds[i] in OKKINDS
+        done = not pending(i)
+        if done != (ref.state[i] is not None):
             # the aggregate cancelled (or failed to cancel) this input: report and stop, the rest of the
             # schedule is meaningless
-            which = "cancelled-unexpectedly" if d.called else "not-cancelled"
+            which = "cancelled-unexpectedly" if done else "not-cancelled"
             ctx = "on-aggregate-cancel" if ref.cancelled_agg else ("race-loser" if agg[0] == "race" else "no-cancel-due")
+            if kinds[i] in CHAINED:
+                ctx += ":fired-input-waiting-on-inner-deferred"
             bad.append(("%s:input-%s:%s" % (name, which, ctx),
-                        "input %d is %s before its firing #%d, reference says %s" % (
-                            i, "fired" if d.called else "unfired", step, "unfired" if d.called else "cancelled")))
+                        "input %d (%s) is %s before its firing #%d, reference says %s" % (
+                            i, kinds[i], "done" if done else "pending", step, "pending" if done else "cancelled")))
             break
-        if d.called:
+        if done:
             # cancelled earlier by the aggregate (race loser / aggregate cancel)
-            if canc[i] == "none" and d.liveCancels:
+            if canc[i] == "none" and probe[i].liveCancels:
                 # a canceller-less Deferred accepts (and drops) one late result
-                if ok:
-                    d.callback(("v", i))
-                else:
-                    d.errback(E(("e", i)))
+                deliver(i)
             continue
         if ok:
             ref.fire(i, ("ok", ("v", i)))
-            d.callback(("v", i))
         else:
             ref.fire(i, ("fail", ("e", i)))
-            d.errback(E(("e", i)))
+        deliver(i)
         if status("firing #%d (input %d)" % (step, i)):
             break
 
     info = {"cancelled": did_cancel and ref.cancelled_agg, "result": None}
     if not bad:
         # all inputs have fired now
-        if not all(d.called for d in inputs):
-            bad.append(("harness:input-left-unfired", repr([d.called for d in inputs])))
+        if any(pending(i) for i in range(n)):
+            bad.append(("harness:input-left-unfired", repr([pending(i) for i in range(n)])))
         if not got:
             bad.append((name + ":not-fired-when-due", "all inputs fired, aggregate unfired"))
         else:
@@ -398,6 +452,11 @@ def run_case(case):
             if isinstance(r, Failure) and not isinstance(r.value, (E, CancelledError)):
                 kind = "fired-twice" if isinstance(r.value, AlreadyCalledError) else \
                     "exception-in-input-callback:" + type(r.value).__name__
+                if kind == "fired-twice" and ref.cancelled_agg and kinds[i] in PAUSED and len(got) == 1 \
+                        and classify(agg, got[0]) == ("cancelled",):
+                    # the aggregate was cancelled while this fired-but-paused input could not be cancelled; when the
+                    # input is unpaused the aggregate tries to fire its (already cancelled) result again
+                    kind = "fires-again-when-paused-input-delivers-after-aggregate-cancel"
                 bad.append((name + ":" + kind, "input %d chain carries %r after the aggregate's callback" % (i, r.value)))
                 continue
             exp = ref.later_sees(i)
@@ -413,16 +472,22 @@ def run_case(case):
                     sig = name + ":input-success-changed-for-later-callbacks"
                 bad.append((sig, "input %d: later callback saw %r, reference %r" % (i, d, exp)))
         for i in range(n):
-            if inputs[i].liveCancels != ref.cancels[i]:
-                which = "not-cancelled" if inputs[i].liveCancels < ref.cancels[i] else "cancelled-unexpectedly"
+            if kinds[i] in PAUSED:
+                continue        # cancel() of a fired, paused Deferred does nothing: nothing to count
+            live = probe[i].liveCancels
+            if live != ref.cancels[i]:
+                which = "not-cancelled" if live < ref.cancels[i] else "cancelled-unexpectedly"
                 ctx = "on-aggregate-cancel" if ref.cancelled_agg else ("race-loser" if agg[0] == "race" else "no-cancel-due")
+                if kinds[i] in CHAINED:
+                    ctx += ":fired-input-waiting-on-inner-deferred"
                 bad.append(("%s:input-%s:%s" % (name, which, ctx),
-                            "input %d got %d cancel() calls while unfired, reference %d" % (i, inputs[i].liveCancels, ref.cancels[i])))
-            if canc[i] != "none" and canclog.count(i) != inputs[i].liveCancels:
+                            "input %d (%s) got %d effective cancel() calls while pending, reference %d" % (
+                                i, kinds[i], live, ref.cancels[i])))
+            if canc[i] != "none" and canclog.count(i) != live:
                 bad.append(("harness:canceller-count", "input %d canceller ran %d times, cancel() while unfired %d" % (
-                    i, canclog.count(i), inputs[i].liveCancels)))
+                    i, canclog.count(i), live)))
     # leave nothing for the garbage collector to report
-    for d in inputs:
+    for d in inputs + probe:
         d.addErrback(lambda f: None)
     return bad, info
 
@@ -431,16 +496,17 @@ def run_case(case):
 
 def cases_for(kinds, canc_kinds):
     n = len(kinds)
-    later = [i for i, k in enumerate(kinds) if k in ("lo", "lf")]
+    later = [i for i, k in enumerate(kinds) if k not in PRE]
     L = len(later)
+    clater = [i for i in later if kinds[i] not in PAUSED]      # inputs a cancel can reach
     none = ("none",) * n
     for perm in itertools.permutations(later):
         for ai, agg in enumerate(AGGS):
             if agg[0] == "race":
                 # cancellers matter at win time and at aggregate-cancel time: enumerate for every later input
-                for cs in itertools.product(canc_kinds, repeat=L):
+                for cs in itertools.product(canc_kinds, repeat=len(clater)):
                     canc = list(none)
-                    for j, i in enumerate(later):
+                    for j, i in enumerate(clater):
                         canc[i] = cs[j]
                     canc = tuple(canc)
                     yield (kinds, perm, ai, None, canc)
@@ -450,7 +516,7 @@ def cases_for(kinds, canc_kinds):
                 yield (kinds, perm, ai, None, none)
                 for p in range(L + 1):
                     # only the inputs still unfired at the cancel can have their canceller called
-                    rest = perm[p:]
+                    rest = [i for i in perm[p:] if kinds[i] not in PAUSED]
                     for cs in itertools.product(canc_kinds, repeat=len(rest)):
                         canc = list(none)
                         for j, i in enumerate(rest):
@@ -459,16 +525,32 @@ def cases_for(kinds, canc_kinds):
 
 
 def all_kinds(tier):
-    nmax = 4 if tier == "quick" else 5
     out = []
-    for n in range(1, nmax + 1):
-        for kinds in itertools.product(KINDS, repeat=n):
-            out.append(kinds)
+    for n in range(1, 4):
+        out.extend(itertools.product(KINDS8, repeat=n))
+    out.extend(itertools.product(KINDS, repeat=4))
+    if tier != "quick":
+        # n = 4 with exactly one chained / paused input, n = 5 plain
+        for pos in range(4):
+            for sp in SPECIAL:
+                for rest in itertools.product(KINDS, repeat=3):
+                    out.append(rest[:pos] + (sp,) + rest[pos:])
+        out.extend(itertools.product(KINDS, repeat=5))
     return out
 
 
+def canc_for(tier, kinds):
+    n = len(kinds)
+    special = any(k in SPECIAL for k in kinds)
+    if tier == "quick":
+        return CANC4 if (n <= 3 and not special) else CANC3
+    if special:
+        return CANC4 if n <= 3 else CANC3
+    return CANC4 if n <= 4 else CANC3
+
+
 def weight(kinds):
-    L = sum(1 for k in kinds if k in ("lo", "lf"))
+    L = sum(1 for k in kinds if k not in PRE)
     w = 1
     for i in range(2, L + 1):
         w *= i
@@ -493,8 +575,8 @@ def run_shard(shard, tier, seed):
     for kinds in shard:
         kinds = tuple(kinds)
         n = len(kinds)
-        canc_kinds = CANC4 if n <= (3 if tier == "quick" else 4) else CANC3
-        has_later = any(k in ("lo", "lf") for k in kinds)
+        canc_kinds = canc_for(tier, kinds)
+        has_later = any(k not in PRE for k in kinds)
         for case in cases_for(kinds, canc_kinds):
             st.evaluations += 1
             bad, info = run_case(case)
